@@ -402,6 +402,8 @@ def run_creation(case: dict, root: str, *, sim_kwargs: dict | None = None, trace
         sim.faults["pool_task_memerror"] = int(fault.get("k", 0))
     if kind == "writer_killed":
         sim.faults["kill_task"] = ("proc", int(fault.get("k", 0)))
+    if kind == "stalled_peer":
+        sim.faults["timeouts_fire"] = int(fault.get("k", 0))
     if kind == "fs_errno":
         sim.faults["fs_errno"] = (int(fault["k"]), ERRNOS[fault["errno"]], fault["errno"], bool(fault.get("sticky")))
 
